@@ -7,7 +7,10 @@ calls, set displays and comprehensions -- is an NDSet whose iteration order is c
 solver at every iteration.  Graph edges, edge priorities and the State.order permutation are
 solver-chosen as well.  Obligation: the sequence of SCCs, the order inside each SCC and the
 token stream fed to the transitive-dependency hash equal those of the canonical (sorted)
-iteration order, for every choice.
+iteration order, for every choice.  A second family of partitions runs the real find_stale_sccs
+(with order_ascc_ex and verify_transitive_deps) on the fully fresh graph with solver-chosen
+"module has cached diagnostics" flags: the order in which the cached diagnostics are flushed on a
+warm run must not depend on the iteration ranks either.
 
 Outside the claim: whole-run hash-seed independence, API reuse in one process (global
 interpreter state; not encodable).
@@ -216,7 +219,7 @@ def load_kernels() -> tuple[Kernel, Kernel, Any]:
 
     KB = Kernel(
         "mypy.build",
-        ["deps_filtered", "sorted_components_inner", "order_ascc", "transitive_dep_hash"],
+        ["deps_filtered", "sorted_components_inner", "order_ascc", "transitive_dep_hash", "order_ascc_ex", "verify_transitive_deps", "find_stale_sccs"],
         shims=shims,
         node_hook=set_hook,
         closure=False,
@@ -236,7 +239,7 @@ PAIRS = [(a, b) for a in MODS for b in MODS if a != b]
 
 
 def explore_partition(arg: tuple) -> tuple:
-    perm, first_edge_mask = arg
+    kind, perm, first_edge_mask = arg
     import mypy.build as B
 
     KG, KB, TS = load_kernels()
@@ -264,6 +267,57 @@ def explore_partition(arg: tuple) -> tuple:
             hashes.append(KB["transitive_dep_hash"](scc, graph))
         return inner_l, orders, hashes
 
+    def replay_order(graph: dict, errs: tuple) -> tuple:
+        """find_stale_sccs on a fully fresh graph: the order in which the cached diagnostics of the
+        modules are flushed (the warm-run output order)"""
+        _MODE_save = _MODE["ctx"]
+        _MODE["ctx"] = None
+        try:  # the list of SCCs handed over is the (already compared) canonical sequence
+            inner = KB["sorted_components_inner"](graph, NDSet(MODS), PRI_INDIRECT)
+            sccs = []
+            for i, s_ in enumerate(inner):
+                sc = _SCC(NDSet(sorted(s_.items if isinstance(s_, NDSet) else s_)))
+                sc.id = i
+                sc.deps = NDSet()
+                sccs.append(sc)
+        finally:
+            _MODE["ctx"] = _MODE_save
+        by_mod = {m: sc for sc in sccs for m in sc.mod_ids.items}
+        for m, st in graph.items():
+            st.is_fresh = lambda: True
+            st.dep_hashes = {d: "I" + d for d in st.dependencies}
+            st.interface_hash = "I" + m
+            st.error_lines = ["E:" + m] if errs[MODS.index(m)] else []
+            st.xpath = m + ".py"
+            st.meta = type("Meta", (), {"trans_dep_hash": st.trans_dep_hash})
+            for d in st.dependencies:
+                if by_mod[d] is not by_mod[m]:
+                    by_mod[m].deps.add(by_mod[d].id)
+        flushed: list = []
+
+        class Errs:
+            @staticmethod
+            def simplify_path(p: str) -> str:
+                return p
+
+            @staticmethod
+            def format_messages(path: str, lines: list, formatter: Any = None) -> list:
+                return list(lines)
+
+        class Mgr:
+            logging_enabled = False
+            tracing_enabled = False
+            errors = Errs
+            error_formatter = None
+            scc_by_mod_id = by_mod
+
+            @staticmethod
+            def flush_errors(path: str, msgs: list, blocker: bool) -> None:
+                flushed.append((path, tuple(msgs)))
+
+        stale, fresh = KB["find_stale_sccs"](sccs, graph, Mgr)
+        return tuple(flushed), len(stale), len(fresh)
+
     def mkgraph(edges: dict) -> dict:
         g = {}
         for i, m in enumerate(MODS):
@@ -283,22 +337,32 @@ def explore_partition(arg: tuple) -> tuple:
                 k = c.choose(f"edge{idx}", 3)
             edges[pr] = {0: None, 1: PRI_HIGH, 2: PRI_INDIRECT}[k]
         key = tuple(sorted((k, v) for k, v in edges.items()))
+        if kind == "replay":
+            errs = tuple(c.choose(f"errors_in_{m}", 2) for m in MODS)
+            key = key + (errs,)
+            run = lambda: replay_order(mkgraph(edges), errs)  # noqa: E731
+        else:
+            errs = ()
+            run = lambda: outputs(mkgraph(edges))  # noqa: E731
         if key not in canon:
             _MODE["ctx"] = None
-            canon[key] = outputs(mkgraph(edges))
+            canon[key] = run()
         _MODE["ctx"] = c
         try:
-            got = outputs(mkgraph(edges))
+            got = run()
         finally:
             _MODE["ctx"] = None
         n["p"] += 1
         c.stats["assert_queries"] += 1
         if got == canon[key]:
             c.stats["discharged"] += 1
+        elif kind == "replay":
+            c.stats["refuted"] += 1
+            found.setdefault("order in which cached diagnostics of a fresh SCC are replayed depends on set iteration order", ({f"{a}->{b}": v for (a, b), v in edges.items() if v}, list(perm), repr(got)[:300], repr(canon[key])[:300], list(errs)))
         else:
             c.stats["refuted"] += 1
             which = "SCC sequence" if got[0] != canon[key][0] else ("order inside an SCC" if got[1] != canon[key][1] else "transitive dependency hash input")
-            found.setdefault(f"{which} depends on set iteration order", ({f"{a}->{b}": v for (a, b), v in edges.items() if v}, list(perm), repr(got)[:300], repr(canon[key])[:300]))
+            found.setdefault(f"{which} depends on set iteration order", ({f"{a}->{b}": v for (a, b), v in edges.items() if v}, list(perm), repr(got)[:300], repr(canon[key])[:300], []))
 
     ctx = Ctx(max_paths=5_000_000, deadline_s=3000)
     ctx.explore(body)
@@ -314,9 +378,9 @@ def main(args: Any) -> int:
     rep.assumptions += ["State.order values are distinct (State.order_counter)", "set iteration order is modelled as a per-run total order on elements (insertion-history effects of CPython's open addressing are not modelled)", "the hash function is applied to the recorded token stream (typed token buffer instead of WriteBuffer)"]
     rep.outside += ["hash-seed independence of whole runs and of cache bytes; independence from earlier builds in the same process: global interpreter state, not encodable"]
     perms = list(itertools.permutations([1, 2, 3]))
-    parts = [(p, m) for p in perms for m in range(9)]
+    parts = [(k, p, m) for k in ("order", "replay") for p in perms for m in range(9)]
     if args.tier == "quick":
-        parts = [(p, m) for p in perms[:2] for m in range(9)]
+        parts = [(k, p, m) for k in ("order", "replay") for p in perms[:2] for m in range(9)]
     with mp.get_context("fork").Pool(14) as pool:
         results = pool.map(explore_partition, parts)
     tot = Ctx()
@@ -334,9 +398,9 @@ def main(args: Any) -> int:
     rep.add_ctx("ordering kernels under nondeterministic set iteration", tot, partitions=len(parts), compared=np_)
     rep.twin("ordering kernels compared on some path", np_ > 0)
     rep.sample({"modules": MODS, "partitions": len(parts), "compared": np_})
-    for key, (edges, perm, got, want) in found.items():
-        rep.sample({"class": key, "edges": edges, "orders": perm, "got": got, "canonical": want})
-        rep.candidate(key, f"graph {edges} with orders {perm}: got {got} vs canonical {want}", {"edges": edges, "orders": perm}, replay_seeds(edges, perm))
+    for key, (edges, perm, got, want, errs) in found.items():
+        rep.sample({"class": key, "edges": edges, "orders": perm, "got": got, "canonical": want, "modules_with_errors": errs})
+        rep.candidate(key, f"graph {edges} with orders {perm}{' errors in ' + str(errs) if errs else ''}: got {got} vs canonical {want}", {"edges": edges, "orders": perm}, replay_seeds(edges, perm, errs))
     return rep.finish()
 
 
@@ -357,13 +421,34 @@ orders = [B.order_ascc(g, set(s)) for s in inner]
 class SCC:
     def __init__(self, ids): self.mod_ids = set(ids); self.id = 1
 hashes = [B.transitive_dep_hash(SCC(s), g).hex() for s in inner]
-print(out, orders, hashes)
+flushed = []
+errs = {errs!r}
+if errs:
+    sccs = []
+    for i, s in enumerate(inner):
+        sc = SCC(s); sc.id = i; sc.deps = set(); sccs.append(sc)
+    by_mod = {{m: sc for sc in sccs for m in sc.mod_ids}}
+    for m, st in g.items():
+        st.is_fresh = lambda: True
+        st.dep_hashes = {{d: "I" + d for d in st.dependencies}}
+        st.interface_hash = "I" + m
+        st.error_lines = ["E:" + m] if errs[MODS.index(m)] else []
+        st.xpath = m + ".py"
+        st.meta = type("Meta", (), {{"trans_dep_hash": st.trans_dep_hash}})
+    class Errs:
+        simplify_path = staticmethod(lambda p: p)
+        format_messages = staticmethod(lambda path, lines, formatter=None: list(lines))
+    class Mgr:
+        logging_enabled = False; tracing_enabled = False; errors = Errs; error_formatter = None; scc_by_mod_id = by_mod
+        flush_errors = staticmethod(lambda path, msgs, blocker: flushed.append(path))
+    B.find_stale_sccs(sccs, g, Mgr)
+print(out, orders, hashes, flushed)
 '''
 
 
-def replay_seeds(edges: dict, perm: list):
+def replay_seeds(edges: dict, perm: list, errs: list = []):
     def replay(d: str) -> tuple[bool, str]:
-        script = SEED_SCRIPT.format(edges=edges, perm=perm, mods=MODS)
+        script = SEED_SCRIPT.format(edges=edges, perm=perm, mods=MODS, errs=list(errs))
         with open(os.path.join(d, "replay.py"), "w") as f:
             f.write(script)
         outs = set()
